@@ -33,8 +33,9 @@ class RegPlan:
         self.ir = IR()
         self.role = {}  # nid -> plain | stored | producer | psrc | dsrc
         self.producer_of = {}  # dsrc nid -> producer nid
-        self.dsrc_of = {}  # producer nid -> dsrc nid
+        self.dsrc_of = {}  # producer nid -> [dsrc nids] in the order the producer writes them (a chain d1 -> d2 -> ...)
         self.normalising = {}  # nid -> bool
+        self.chain_lits = set()
         self.alias_of = {}  # alias source nid -> stored nid whose store it shares (test_source_dependent_on_write)
 
     def registered(self):
@@ -62,6 +63,8 @@ def gen_regplan(rng, n, family=None, cfg=None):
     p_norm = cfg.get("p_norm", 0.5)
     p_alias = cfg.get("p_alias", 0.12)
     p_slit = cfg.get("p_slit", 0.12)
+    p_ulit = cfg.get("p_ulit", 0.08)
+    p_chain = cfg.get("p_chain", 0.4)
     KW = ["zeta", "alpha", "m10", "m9", "beta", "k2"]
     sk2id = {}
     has_reg_anc = {}
@@ -92,6 +95,18 @@ def gen_regplan(rng, n, family=None, cfg=None):
             r = rng.random()
             if rp.role[p] == "producer":
                 raise AssertionError("producers are dedicated")
+            if rng.random() < p_ulit:
+                # routed through an UNREGISTERED literal ("milestone"): p -> lit by add_dependency, lit -> this call as an argument or
+                # as a plain dependency. Staleness, modified times and ordering must flow through it.
+                lit = ir.add("lit", value=rng.choice([7, "u", (1, 2), None]), scope=_scope(rng), fname="ulit")
+                rp.role[lit.id] = "ulit"
+                has_reg_anc[lit.id] = rp.role[p] in REGISTERED or reg_anc(p)
+                ir.deps.append((p, lit.id))
+                if rng.random() < 0.5:
+                    args.append(ref(lit.id))
+                else:
+                    deps.append(lit.id)
+                continue
             if r < p_dep:
                 deps.append(p)
             elif r < p_dep + p_kw and len(kwargs) < len(KW):
@@ -108,14 +123,31 @@ def gen_regplan(rng, n, family=None, cfg=None):
         r = rng.random()
         if preds and anc_reg and r < p_dsrc:
             rp.role[nd.id] = "producer"
-            s = ir.add("source", scope=_scope(rng), fname="dsrc")
-            rp.role[s.id] = "dsrc"
-            rp.normalising[s.id] = rng.random() < p_norm
-            ir.deps.append((nd.id, s.id))
-            rp.producer_of[s.id] = nd.id
-            rp.dsrc_of[nd.id] = s.id
-            has_reg_anc[s.id] = True
-            sk2id[si] = s.id
+            # the producer writes one store, or several in a fixed order: sources chained by add_dependency
+            # (call -> source A -> source B, as in test_failed_to_read_from_empty_store_2), possibly through a milestone literal
+            chain = []
+            prev = nd.id
+            k = 1 + int(rng.random() < p_chain) + int(rng.random() < p_chain * 0.4)
+            for _ in range(k):
+                if rng.random() < 0.2:
+                    lit = ir.add("lit", value="milestone", fname="ulit")
+                    rp.role[lit.id] = "ulit"
+                    rp.chain_lits.add(lit.id)  # between a producer and its source: requesting it as output would re-run the producer
+                    has_reg_anc[lit.id] = True
+                    ir.deps.append((prev, lit.id))
+                    prev = lit.id
+                s = ir.add("source", scope=_scope(rng), fname="dsrc")
+                rp.role[s.id] = "dsrc"
+                rp.normalising[s.id] = rng.random() < p_norm
+                ir.deps.append((prev, s.id))
+                rp.producer_of[s.id] = nd.id
+                has_reg_anc[s.id] = True
+                if rng.random() < 0.3:
+                    ir.meta.setdefault("early_sources", set()).add(s.id)  # created (registry.source) before everything else
+                chain.append(s.id)
+                prev = s.id
+            rp.dsrc_of[nd.id] = chain
+            sk2id[si] = rng.choice(chain)
         else:
             if rng.random() < p_store:
                 rp.role[nd.id] = "stored"
@@ -167,8 +199,29 @@ class Session:
         rng = random.Random(seed ^ 0xB11D)
         ir = self.ir
         pending_adds = []
+        early = ir.meta.get("early_sources", ())
+        for n in ir.nodes:
+            # node creation order is not a topological order: some dependent sources are declared first and wired up later
+            if n.id in early:
+                norm = rp.normalising[n.id] if all_normalising is None else all_normalising
+                st = vstore.VStore(f"s{n.id}", self.clock, self.H, normalising=norm)
+                self.stores[n.id] = st
+                if n.scope:
+                    with self.plan.scope(*n.scope):
+                        n.node = self.registry.source(self.plan, st)
+                else:
+                    n.node = self.registry.source(self.plan, st)
         for n in ir.nodes:
             role = rp.role[n.id]
+            if n.id in early:
+                continue
+            if n.kind == "lit" and role == "ulit":
+                if n.scope:
+                    with self.plan.scope(*n.scope):
+                        n.node = self.plan.lit(n.value)
+                else:
+                    n.node = self.plan.lit(n.value)
+                continue
             if n.kind == "lit":
                 if n.scope:
                     with self.plan.scope(*n.scope):
@@ -235,11 +288,41 @@ class Session:
         prod = rp.dsrc_of
 
         def post(nid, att, res):
-            d = prod.get(nid)
-            if d is not None:
+            for d in prod.get(nid, ()):
                 self.stores[d].side_write(res)
 
+        self.side_post = post
         H.post = post
+        self.chain_of = {d: ch for ch in prod.values() for d in ch}
+
+    def delete(self, i):
+        """Delete a stored value. A member of a chain of dependent sources is deleted together with the members before it: a later
+        member missing on its own can never be rebuilt (its producer is only re-run for the head of the chain)."""
+        ch = self.chain_of.get(i)
+        if ch is None:
+            self.stores[i].delete()
+            return [i]
+        gone = ch[: ch.index(i) + 1]
+        for j in gone:
+            self.stores[j].delete()
+        return gone
+
+    def lit_successor_calls(self, n):
+        """calls reachable from n through one or more unregistered literals only"""
+        out = set()
+        st = [m for m in self.succs[n] if self.rp.role[m] == "ulit"]
+        seen = set()
+        while st:
+            l = st.pop()
+            if l in seen:
+                continue
+            seen.add(l)
+            for m in self.succs[l]:
+                if self.rp.role[m] == "ulit":
+                    st.append(m)
+                elif self.ir.nodes[m].kind == "call":
+                    out.add(m)
+        return out
 
     # ------------------------------------------------------------------ oracles
     def scratch(self):
@@ -254,7 +337,7 @@ class Session:
                 v = raw[rp.producer_of[n.id]]
             elif role == "alias":
                 v = raw[rp.alias_of[n.id]]
-            elif role == "slit":
+            elif role in ("slit", "ulit"):
                 v = n.value
             else:
                 v = irmod.compute(ir, n, [seen[a.a] for a in n.args], [(k, seen[a.a]) for k, a in n.kwargs])
@@ -309,7 +392,7 @@ class Session:
                         break
             if nd:
                 need.add(i)
-        execs = set(need)
+        execs = {i for i in need if ir.nodes[i].kind == "call"}
         for i in self.reg:
             if rp.role[i] == "stored" and ood[i]:
                 execs.add(i)
@@ -318,7 +401,7 @@ class Session:
         for p in self.reg:
             if p in O or any(m in execs for m in self.argsucc[p]):
                 reads.add(p)
-        side = {rp.dsrc_of[p] for p in execs if p in rp.dsrc_of}
+        side = {d for p in execs for d in rp.dsrc_of.get(p, ())}
         e = Expect()
         e.ood, e.execs, e.writes, e.reads, e.side = ood, execs, writes, reads, side
         return e
@@ -458,6 +541,8 @@ class Session:
             role = self.rp.role[n.id]
             if n.kind == "source":
                 lines.append(f"n{n.id} = {role} store={self.stores[n.id].name}{' norm' if self.stores[n.id].normalising else ''}")
+            elif n.kind == "lit" and role == "ulit":
+                lines.append(f"n{n.id} = unregistered lit({n.value!r})")
             elif n.kind == "lit":
                 lines.append(f"n{n.id} = {role} lit({n.value!r}) store={self.stores[n.id].name}{' norm' if self.stores[n.id].normalising else ''}")
             else:
